@@ -1,34 +1,59 @@
 #!/usr/bin/env python3
-"""sweep.py <dir-with-subdirs-containing-patch.diff> [--out file.json] : apply each change to /repo, run every check (ALL mode), restore.
+"""sweep.py <dir-with-subdirs-containing-patch.diff> [--out file.json] [--scratch] : apply each change to /repo, run every check (ALL mode), restore.
+With --scratch the change is applied to an rsync copy of /repo in a temporary directory instead (removed afterwards; /repo and
+/verif/evidence stay untouched), so that sweeps can run while /repo is in use.
 Prints one line per change: which properties raised an unlisted violation and by which rules."""
-import json, os, re, subprocess, sys
+import json, os, re, shutil, subprocess, sys, tempfile
 root = sys.argv[1]
+SCRATCH = "--scratch" in sys.argv
 out = sys.argv[sys.argv.index("--out") + 1] if "--out" in sys.argv else None
 only = [a for a in sys.argv[2:] if not a.startswith("--") and a != out]
 def sh(cmd, cwd=None):
     return subprocess.run(cmd, shell=True, cwd=cwd, capture_output=True, text=True)
-if sh("git status --porcelain --untracked-files=no", "/repo").stdout.strip():
+if not SCRATCH and sh("git status --porcelain --untracked-files=no", "/repo").stdout.strip():
     print("repo dirty"); sys.exit(2)
 res = {}
+
+
+def scratch_run(p):
+    tmp = tempfile.mkdtemp(prefix="verif-sweep-")
+    ev = tempfile.mkdtemp(prefix="verif-sweep-ev-")
+    try:
+        sh("rsync -a --exclude target --exclude .git %s/ %s/" % (os.environ.get("SWEEP_BASE", "/repo"), tmp))
+        if sh("patch -p1 --no-backup-if-mismatch -s -F3 -i %s" % p, tmp).returncode != 0:
+            return None
+        return subprocess.run("./check ALL", shell=True, cwd="/verif", capture_output=True, text=True,
+                              env=dict(os.environ, VERIF_REPO=tmp, VERIF_EVIDENCE_DIR=ev))
+    finally:
+        shutil.rmtree(tmp, ignore_errors=True)
+        shutil.rmtree(ev, ignore_errors=True)
+
+
 for name in sorted(os.listdir(root)):
     d = os.path.join(root, name)
     p = os.path.join(d, "patch.diff")
     if not os.path.isfile(p) or (only and name not in only):
         continue
-    ok = sh("git apply %s" % p, "/repo").returncode == 0
-    if not ok:
+    if SCRATCH:
+        r = scratch_run(p)
+        ok = r is not None
+    else:
+        ok = sh("git apply %s" % p, "/repo").returncode == 0
+    if not ok and not SCRATCH:
         sh("git reset -q --hard HEAD", "/repo")
         ok = sh("git apply --3way %s && git reset -q" % p, "/repo").returncode == 0
-    if not ok:
+    if not ok and not SCRATCH:
         sh("git reset -q --hard HEAD; git clean -fdq -- src tests", "/repo")
         ok = sh("patch -p1 --no-backup-if-mismatch -F3 < %s" % p, "/repo").returncode == 0
     if not ok:
-        sh("git reset -q --hard HEAD; git clean -fdq -- src tests", "/repo")
+        if not SCRATCH:
+            sh("git reset -q --hard HEAD; git clean -fdq -- src tests", "/repo")
         res[name] = {"status": "patch-does-not-apply"}
         print("%-12s PATCH-DOES-NOT-APPLY" % name)
         continue
-    r = sh("./check ALL", "/verif")
-    sh("git reset -q --hard HEAD; git clean -fdq -- src tests", "/repo")
+    if not SCRATCH:
+        r = sh("./check ALL", "/verif")
+        sh("git reset -q --hard HEAD; git clean -fdq -- src tests", "/repo")
     fired = {}
     cur = None
     if "CHECK-INPUT-ERROR" in r.stdout:
